@@ -314,6 +314,14 @@ done:
 			vsched.ManualAdvance(2 * time.Second)
 			rm.RemoveOldRegistrations()
 			after := rm.VerifTotal()
+			// a connection handler that looked the registration up before the sweep may still hold it and report
+			// activity now: the station no longer keeps it, so nothing may be announced for it
+			nBefore := len(anns)
+			rm.MarkActive(regs[0])
+			if after == 0 && len(anns) != nBefore {
+				last := anns[len(anns)-1]
+				e.Violation("announcement-for-registration-not-kept", fmt.Sprintf("after the %s lifetime the registration was swept; MarkActive with the stale object still announced %s to the detector", state, last.Op), map[string]any{"case": "stale-activate:" + state})
+			}
 			vsched.SetManualClock(false)
 			if before != 1 || after != 0 {
 				e.Violation("lifetime-differs-from-station:"+state, fmt.Sprintf("%s announcements request %v; station tracks the registration %d/%d at -1s/+1s around that age", state, time.Duration(ttl), before, after), nil)
